@@ -23,6 +23,7 @@ mod p11;
 mod p12;
 mod p13;
 mod p14;
+mod p15;
 mod p16;
 mod p17;
 mod p18;
@@ -51,6 +52,7 @@ fn modules() -> Vec<Module> {
         ("C12", p12::run_all, p12::checks),
         ("C13", p13::run_all, p13::checks),
         ("C14", p14::run_all, p14::checks),
+        ("C15", p15::run_all, p15::checks),
         ("C16", p16::run_all, p16::checks),
         ("C17", p17::run_all, p17::checks),
         ("C18", p18::run_all, p18::checks),
